@@ -116,4 +116,246 @@ end
 def CG.extend (g : CG) (r : List Instr × Aux) : CG :=
   { code := g.code ++ r.1, pending := g.pending, aux := r.2 }
 
+
+/-! ## The back-patching generator produces `relExpr` -/
+
+theorem getElem?_mid {α : Type} (A B : List α) (x : α) (n : Nat) (h : n = A.length) :
+    (A ++ x :: B)[n]? = some x := by subst h; simp
+
+theorem set_mid {α : Type} (A B : List α) (x y : α) (n : Nat) (h : n = A.length) :
+    (A ++ x :: B).set n y = A ++ y :: B := by subst h; simp
+
+@[simp] theorem CG.next_extend (g : CG) (r : List Instr × Aux) : (g.extend r).next = g.next + r.1.length := by
+  simp [CG.extend, CG.next]
+
+@[simp] theorem CG.extend_add (g : CG) (r : List Instr × Aux) (i : Instr) :
+    (g.extend r).add i = g.extend (r.1 ++ [i], r.2) := by
+  simp [CG.extend, CG.add]
+
+theorem CG.extend_extend (g : CG) (r r' : List Instr × Aux) :
+    (g.extend r).extend r' = g.extend (r.1 ++ r'.1, r'.2) := by
+  simp [CG.extend]
+
+@[simp] theorem CG.extend_aux (g : CG) (r : List Instr × Aux) : (g.extend r).aux = r.2 := rfl
+@[simp] theorem CG.extend_pending (g : CG) (r : List Instr × Aux) : (g.extend r).pending = g.pending := rfl
+
+theorem CG.add_eq_extend (g : CG) (i : Instr) : g.add i = g.extend ([i], g.aux) := by
+  simp [CG.extend, CG.add]
+
+theorem CG.markOof_eq_extend (g : CG) : g.markOof = g.extend ([], g.aux.markOof) := by
+  simp [CG.extend, CG.markOof]
+
+
+theorem patch_jifop (g : CG) (A B : List Instr) (n u t : Nat) (hc : g.code = A ++ .jumpIfFalseOrPop u :: B)
+    (hn : n = A.length) : g.patch n t = { g with code := A ++ .jumpIfFalseOrPop t :: B } := by
+  simp [CG.patch, hc, getElem?_mid A B _ n hn, set_mid A B _ _ n hn]
+
+theorem patch_jitop (g : CG) (A B : List Instr) (n u t : Nat) (hc : g.code = A ++ .jumpIfTrueOrPop u :: B)
+    (hn : n = A.length) : g.patch n t = { g with code := A ++ .jumpIfTrueOrPop t :: B } := by
+  simp [CG.patch, hc, getElem?_mid A B _ n hn, set_mid A B _ _ n hn]
+
+theorem patch_jif (g : CG) (A B : List Instr) (n u t : Nat) (hc : g.code = A ++ .jumpIfFalse u :: B)
+    (hn : n = A.length) : g.patch n t = { g with code := A ++ .jumpIfFalse t :: B } := by
+  simp [CG.patch, hc, getElem?_mid A B _ n hn, set_mid A B _ _ n hn]
+
+theorem patch_jump (g : CG) (A B : List Instr) (n u t : Nat) (hc : g.code = A ++ .jump u :: B)
+    (hn : n = A.length) : g.patch n t = { g with code := A ++ .jump t :: B } := by
+  simp [CG.patch, hc, getElem?_mid A B _ n hn, set_mid A B _ _ n hn]
+
+
+theorem scBool_block (g : CG) (L R : List Instr × Aux) (isAnd : Bool) :
+    (((g.startScBool.extend L).scBool isAnd).extend R).endScBool =
+      g.extend (L.1 ++ [if isAnd then Instr.jumpIfFalseOrPop (g.next + L.1.length + 1 + R.1.length)
+                        else Instr.jumpIfTrueOrPop (g.next + L.1.length + 1 + R.1.length)] ++ R.1, R.2) := by
+  cases isAnd
+  · simp only [CG.startScBool, CG.scBool, CG.endScBool, CG.extend, CG.add, CG.next, CG.patchAll, List.foldl,
+      List.nil_append, Bool.false_eq_true, if_false]
+    rw [patch_jitop _ (g.code ++ L.1) R.1 _ unpatched _ (by simp) (by simp)]
+    simp [Nat.add_assoc]; omega
+  · simp only [CG.startScBool, CG.scBool, CG.endScBool, CG.extend, CG.add, CG.next, CG.patchAll, List.foldl,
+      List.nil_append, if_true]
+    rw [patch_jifop _ (g.code ++ L.1) R.1 _ unpatched _ (by simp) (by simp)]
+    simp [Nat.add_assoc]; omega
+
+
+theorem startIf_extend (g : CG) (C : List Instr × Aux) :
+    (g.extend C).startIf =
+      { code := (g.code ++ C.1) ++ Instr.jumpIfFalse unpatched :: [],
+        pending := .branch (g.next + C.1.length) :: g.pending, aux := C.2 } := by
+  simp [CG.startIf, CG.extend, CG.add, CG.next]
+
+theorem startElse_after (A : List Instr) (P : List Pending) (a : Aux) (C : List Instr × Aux) (n : Nat)
+    (hn : n = A.length) :
+    (({ code := A ++ Instr.jumpIfFalse unpatched :: [], pending := .branch n :: P, aux := a } : CG).extend C).startElse =
+      { code := (A ++ Instr.jumpIfFalse (A.length + 1 + C.1.length + 1) :: C.1) ++ Instr.jump unpatched :: [],
+        pending := .branch (A.length + 1 + C.1.length) :: P, aux := C.2 } := by
+  subst hn
+  simp only [CG.startElse, CG.endCondition, CG.extend, CG.add, CG.next]
+  rw [patch_jif _ A (C.1 ++ [Instr.jump unpatched]) _ unpatched _ (by simp) rfl]
+  simp [Nat.add_assoc]; omega
+
+theorem endIf_after (A : List Instr) (P : List Pending) (a : Aux) (C : List Instr × Aux) (n : Nat)
+    (hn : n = A.length) :
+    (({ code := A ++ Instr.jump unpatched :: [], pending := .branch n :: P, aux := a } : CG).extend C).endIf =
+      { code := A ++ Instr.jump (A.length + 1 + C.1.length) :: C.1, pending := P, aux := C.2 } := by
+  subst hn
+  simp only [CG.endIf, CG.endCondition, CG.extend, CG.next]
+  rw [patch_jump _ A C.1 _ unpatched _ (by simp) rfl]
+  simp [Nat.add_assoc]; omega
+
+theorem if_block (g : CG) (Cc Ct Cf : List Instr × Aux) :
+    ((((g.extend Cc).startIf.extend Ct).startElse).extend Cf).endIf =
+      g.extend (Cc.1 ++ [Instr.jumpIfFalse (g.next + Cc.1.length + 1 + Ct.1.length + 1)] ++ Ct.1 ++
+        [Instr.jump (g.next + Cc.1.length + 1 + Ct.1.length + 1 + Cf.1.length)] ++ Cf.1, Cf.2) := by
+  rw [startIf_extend, startElse_after _ _ _ _ _ (by simp [CG.next]), endIf_after _ _ _ _ _ (by simp; omega)]
+  simp [CG.extend, CG.next, Nat.add_assoc]; omega
+
+
+@[simp] theorem next_startScBool (g : CG) : g.startScBool.next = g.next := rfl
+@[simp] theorem aux_startScBool (g : CG) : g.startScBool.aux = g.aux := rfl
+@[simp] theorem next_scBool_ext (g : CG) (L : List Instr × Aux) (b : Bool) :
+    ((g.startScBool.extend L).scBool b).next = g.next + L.1.length + 1 := by
+  simp [CG.startScBool, CG.scBool, CG.extend, CG.add, CG.next, Nat.add_assoc]
+@[simp] theorem aux_scBool_ext (g : CG) (L : List Instr × Aux) (b : Bool) :
+    ((g.startScBool.extend L).scBool b).aux = L.2 := by
+  simp [CG.startScBool, CG.scBool, CG.extend, CG.add]
+@[simp] theorem next_startIf_ext (g : CG) (C : List Instr × Aux) :
+    (g.extend C).startIf.next = g.next + C.1.length + 1 := by
+  simp [CG.startIf, CG.extend, CG.add, CG.next, Nat.add_assoc]
+@[simp] theorem aux_startIf_ext (g : CG) (C : List Instr × Aux) : (g.extend C).startIf.aux = C.2 := by
+  simp [CG.startIf, CG.extend, CG.add]
+@[simp] theorem next_startElse_ext (g : CG) (Cc Ct : List Instr × Aux) :
+    (((g.extend Cc).startIf.extend Ct).startElse).next = g.next + Cc.1.length + 1 + Ct.1.length + 1 := by
+  rw [startIf_extend, startElse_after _ _ _ _ _ (by simp [CG.next])]
+  simp [CG.next, Nat.add_assoc]; omega
+@[simp] theorem aux_startElse_ext (g : CG) (Cc Ct : List Instr × Aux) :
+    (((g.extend Cc).startIf.extend Ct).startElse).aux = Ct.2 := by
+  rw [startIf_extend, startElse_after _ _ _ _ _ (by simp [CG.next])]
+
+theorem extend_nil_markOof (g : CG) : g.markOof = g.extend ([], g.aux.markOof) := CG.markOof_eq_extend g
+
+mutual
+theorem cExpr_eq_rel : ∀ (e : Expr) (g : CG), simpleExpr e = true →
+    cExpr e g = g.extend (relExpr e g.next g.aux)
+  | .const l, g, _ => by unfold cExpr relExpr; simp [asConst, CG.add_eq_extend]
+  | .var x, g, _ => by unfold cExpr relExpr; simp [asConst, CG.add_eq_extend]
+  | .unop .not x, g, h => by
+    have ih := cExpr_eq_rel x g (by simpa [simpleExpr] using h)
+    unfold cExpr relExpr
+    cases hc : asConst (.unop .not x) <;> simp [CG.add_eq_extend, CG.markOof_eq_extend, ih, CG.extend_extend]
+  | .unop .neg x, g, h => by
+    have ih := cExpr_eq_rel x g (by simpa [simpleExpr] using h)
+    unfold cExpr relExpr
+    cases hc : asConst (.unop .neg x) <;> simp [CG.add_eq_extend, CG.markOof_eq_extend, ih, CG.extend_extend]
+  | .binop op l r, g, h => by
+    have hs : simpleExpr l = true ∧ simpleExpr r = true := by simpa [simpleExpr] using h
+    unfold cExpr relExpr
+    cases hc : asConst (.binop op l r) with
+    | val v => simp [CG.add_eq_extend]
+    | oof => simp [CG.markOof_eq_extend]
+    | no =>
+      cases op
+      case and =>
+        simp only
+        rw [cExpr_eq_rel l g.startScBool hs.1, cExpr_eq_rel r _ hs.2, scBool_block]
+        simp [Nat.add_assoc]
+      case or =>
+        simp only
+        rw [cExpr_eq_rel l g.startScBool hs.1, cExpr_eq_rel r _ hs.2, scBool_block]
+        simp [Nat.add_assoc]
+      all_goals
+        simp only
+        rw [cExpr_eq_rel l g hs.1, cExpr_eq_rel r _ hs.2]
+        simp [CG.extend_extend, Nat.add_assoc]
+  | .cmp _ _, _, h => by simp [simpleExpr] at h
+  | .ife c t none, g, h => by
+    have hs : simpleExpr c = true ∧ simpleExpr t = true := by simpa [simpleExpr] using h
+    unfold cExpr relExpr
+    cases hc : asConst (.ife c t none) with
+    | val v => simp [CG.add_eq_extend]
+    | oof => simp [CG.markOof_eq_extend]
+    | no =>
+      simp only
+      rw [cExpr_eq_rel c g hs.1, cExpr_eq_rel t _ hs.2, CG.add_eq_extend, if_block]
+      simp [Nat.add_assoc]
+  | .ife c t (some f), g, h => by
+    have hs : (simpleExpr c = true ∧ simpleExpr t = true) ∧ simpleExpr f = true := by simpa [simpleExpr] using h
+    unfold cExpr relExpr
+    cases hc : asConst (.ife c t (some f)) with
+    | val v => simp [CG.add_eq_extend]
+    | oof => simp [CG.markOof_eq_extend]
+    | no =>
+      simp only
+      rw [cExpr_eq_rel c g hs.1.1, cExpr_eq_rel t _ hs.1.2, cExpr_eq_rel f _ hs.2, if_block]
+      simp [Nat.add_assoc]
+  | .filter name x args, g, h => by
+    have hs : simpleExpr x = true ∧ simpleArgs args = true := by simpa [simpleExpr] using h
+    unfold cExpr relExpr
+    cases hc : asConst (.filter name x args) with
+    | val v => simp [CG.add_eq_extend]
+    | oof => simp [CG.markOof_eq_extend]
+    | no =>
+      simp only
+      rw [cExpr_eq_rel x g hs.1, cArgs_eq_rel args _ hs.2]
+      simp [CG.filterId, CG.extend, CG.add, CG.next]
+  | .test name x args, g, h => by
+    have hs : simpleExpr x = true ∧ simpleArgs args = true := by simpa [simpleExpr] using h
+    unfold cExpr relExpr
+    cases hc : asConst (.test name x args) with
+    | val v => simp [CG.add_eq_extend]
+    | oof => simp [CG.markOof_eq_extend]
+    | no =>
+      simp only
+      rw [cExpr_eq_rel x g hs.1, cArgs_eq_rel args _ hs.2]
+      simp [CG.testId, CG.extend, CG.add, CG.next]
+  | .getattr x name, g, h => by
+    have ih := cExpr_eq_rel x g (by simpa [simpleExpr] using h)
+    unfold cExpr relExpr
+    cases hc : asConst (.getattr x name) <;> simp [CG.add_eq_extend, CG.markOof_eq_extend, ih, CG.extend_extend]
+  | .getitem x i, g, h => by
+    have hs : simpleExpr x = true ∧ simpleExpr i = true := by simpa [simpleExpr] using h
+    unfold cExpr relExpr
+    cases hc : asConst (.getitem x i) with
+    | val v => simp [CG.add_eq_extend]
+    | oof => simp [CG.markOof_eq_extend]
+    | no =>
+      simp only
+      rw [cExpr_eq_rel x g hs.1, cExpr_eq_rel i _ hs.2]
+      simp [CG.extend_extend, Nat.add_assoc]
+  | .call _ _, _, h => by simp [simpleExpr] at h
+  | .list items, g, h => by
+    have ih := cList_eq_rel items g (by simpa [simpleExpr] using h)
+    unfold cExpr relExpr
+    cases hc : asConst (.list items) <;> simp [CG.add_eq_extend, CG.markOof_eq_extend, ih, CG.extend_extend]
+  | .map kvs, g, h => by
+    have ih := cPairs_eq_rel kvs g (by simpa [simpleExpr] using h)
+    unfold cExpr relExpr
+    cases hc : asConst (.map kvs) <;> simp [CG.add_eq_extend, CG.markOof_eq_extend, ih, CG.extend_extend]
+theorem cArgs_eq_rel : ∀ (args : List (Option String × Expr)) (g : CG), simpleArgs args = true →
+    cArgs args g = g.extend (relArgs args g.next g.aux)
+  | [], g, _ => by simp [cArgs, relArgs, CG.extend]
+  | (none, e) :: rest, g, h => by
+    have hs : simpleExpr e = true ∧ simpleArgs rest = true := by simpa [simpleArgs] using h
+    simp only [cArgs, relArgs]
+    rw [cExpr_eq_rel e g hs.1, cArgs_eq_rel rest _ hs.2]
+    simp [CG.extend_extend]
+  | (some _, _) :: _, _, h => by simp [simpleArgs] at h
+theorem cList_eq_rel : ∀ (es : List Expr) (g : CG), simpleList es = true →
+    cList es g = g.extend (relList es g.next g.aux)
+  | [], g, _ => by simp [cList, relList, CG.extend]
+  | e :: rest, g, h => by
+    have hs : simpleExpr e = true ∧ simpleList rest = true := by simpa [simpleList] using h
+    simp only [cList, relList]
+    rw [cExpr_eq_rel e g hs.1, cList_eq_rel rest _ hs.2]
+    simp [CG.extend_extend]
+theorem cPairs_eq_rel : ∀ (kvs : List (Expr × Expr)) (g : CG), simplePairs kvs = true →
+    cPairs kvs g = g.extend (relPairs kvs g.next g.aux)
+  | [], g, _ => by simp [cPairs, relPairs, CG.extend]
+  | (k, v) :: rest, g, h => by
+    have hs : (simpleExpr k = true ∧ simpleExpr v = true) ∧ simplePairs rest = true := by simpa [simplePairs] using h
+    simp only [cPairs, relPairs]
+    rw [cExpr_eq_rel k g hs.1.1, cExpr_eq_rel v _ hs.1.2, cPairs_eq_rel rest _ hs.2]
+    simp [CG.extend_extend, Nat.add_assoc]
+end
+
 end MJ.Compile
